@@ -60,16 +60,28 @@ Proof.
   rewrite firstn_length. replace (Z.to_nat i - Nat.min (Z.to_nat i) (length b))%nat with O by lia. reflexivity.
 Qed.
 
+Lemma nth_firstn_lt (l : list Z) : forall n i d, (i < n)%nat -> nth i (firstn n l) d = nth i l d.
+Proof.
+  induction l as [|x l IH]; intros n i d H; [rewrite firstn_nil; reflexivity|].
+  destruct n as [|n]; [lia|]. destruct i as [|i]; [reflexivity|]. cbn [firstn nth]. apply IH. lia.
+Qed.
+
+Lemma nth_skipn_add (l : list Z) : forall n i d, nth i (skipn n l) d = nth (n + i) l d.
+Proof.
+  induction l as [|x l IH]; intros n i d.
+  - rewrite skipn_nil. destruct i, n; reflexivity.
+  - destruct n as [|n]; [reflexivity|]. cbn [skipn Nat.add nth]. apply IH.
+Qed.
+
 Lemma znth_upd_other b i v j : 0 <= i < zlen b -> 0 <= j -> j <> i ->
   znth (firstn (Z.to_nat i) b ++ v :: skipn (S (Z.to_nat i)) b) j = znth b j.
 Proof.
   intros H Hj Hne. unfold znth, zlen in *.
   destruct (Z_lt_le_dec j i) as [Hlt|Hge].
-  - rewrite app_nth1 by (rewrite firstn_length; lia). rewrite nth_firstn.
-    destruct (Z.to_nat j <? Z.to_nat i)%nat eqn:E; [reflexivity|]. apply Nat.ltb_ge in E. lia.
+  - rewrite app_nth1 by (rewrite firstn_length; lia). apply nth_firstn_lt. lia.
   - rewrite app_nth2 by (rewrite firstn_length; lia). rewrite firstn_length.
     replace (Z.to_nat j - Nat.min (Z.to_nat i) (length b))%nat with (S (Z.to_nat j - S (Z.to_nat i))) by lia.
-    cbn [nth]. rewrite nth_skipn. f_equal. lia.
+    cbn [nth]. rewrite nth_skipn_add. f_equal. lia.
 Qed.
 
 Lemma firstn_upd_ge b i v n : 0 <= i < zlen b -> (n <= Z.to_nat i)%nat ->
@@ -98,6 +110,7 @@ Proof.
   - destruct (wr b i x) as [b1| | |] eqn:E; cbn [rbind] in H; try discriminate.
     apply wr_inv in E as (Hib & ->).
     assert (zlen (x :: l) = zlen l + 1) as Hl by (unfold zlen; cbn [length]; lia). rewrite Hl in Hout.
+    assert (0 <= zlen l) by (unfold zlen; lia).
     rewrite (IH _ _ _ j H) by lia. apply znth_upd_other; lia.
 Qed.
 
@@ -165,7 +178,7 @@ Proof.
       rewrite znth_upd_same by lia. rewrite (sz_id (cap s - n)) by lia. rewrite sz_id; lia. }
     rewrite Hg1. replace (n <? sz (n + 1)) with true by (rewrite sz_id; lia).
     cbn [with_buf buf]. rewrite wr_ok by lia. cbn [rbind].
-    eexists. split; [reflexivity|]. cbn [cap ckind buf with_buf].
+    eexists. split; [reflexivity|]. unfold with_buf. cbn [cap ckind buf szf].
     repeat split.
     + rewrite zlen_upd; lia.
     + unfold get_size, tiny. cbn [cap buf]. rewrite Et.
@@ -180,7 +193,7 @@ Proof.
     unfold get_size, tiny, with_szf. cbn [cap buf szf]. rewrite Et.
     replace (n <? sz (n + 1)) with true by (rewrite sz_id; lia).
     rewrite wr_ok by lia. cbn [rbind]. eexists. split; [reflexivity|].
-    cbn [cap ckind buf szf with_buf]. rewrite Et. repeat split.
+    unfold with_buf. cbn [cap ckind buf szf]. rewrite Et. repeat split.
     + rewrite zlen_upd; lia.
     + apply znth_upd_same. lia.
     + apply firstn_upd_ge; lia.
@@ -193,7 +206,7 @@ Proof.
   intros Hc Hlen Hn H.
   destruct (Z_le_gt_dec n (cap s)) as [Hle|Hgt].
   - destruct (unsafe_set_size_ok s n Hc Hlen ltac:(lia)) as (s1 & E & H1 & H2 & H3 & H4 & H5 & _).
-    rewrite E in H. inversion H; subst s1. unfold inv. rewrite H1, H4. repeat split; try lia; assumption.
+    rewrite E in H. inversion H; subst s1. unfold inv. rewrite H1, H4. unfold cap_ok in *. repeat split; try lia; try assumption; reflexivity.
   - unfold unsafe_set_size in H. replace (n <=? cap s) with false in H by lia. discriminate.
 Qed.
 
@@ -202,13 +215,6 @@ Lemma repeat_firstn (x : Z) n m : (n <= m)%nat -> firstn n (repeat x m) = repeat
 Proof.
   revert m. induction n as [|n IH]; intros m H; [reflexivity|].
   destruct m as [|m]; [lia|]. cbn [repeat firstn]. f_equal. apply IH. lia.
-Qed.
-
-Lemma znth_repeat x n i : znth (repeat x n) i = x \/ znth (repeat x n) i = 0.
-Proof.
-  unfold znth. destruct (Nat.lt_ge_cases (Z.to_nat i) n) as [H|H].
-  - left. apply nth_repeat.
-  - right. apply nth_overflow. rewrite repeat_length. lia.
 Qed.
 
 Lemma inv_default c ck : cap_ok c -> inv (default_str c ck) /\ get_size (default_str c ck) = 0.
